@@ -4,6 +4,7 @@ package main
 
 import (
 	"fmt"
+	"go/token"
 	"strings"
 
 	"golang.org/x/tools/go/ssa"
@@ -207,7 +208,18 @@ func checkMemfdSeal(c *Check) {
 	c.Cond(evBefore(*create, *read) && evBefore(*read, *seal) && evBefore(*seal, *seek), "3/seal", key+":order", pos, "create < copy < seal < rewind", "steps are out of order (content must be complete before sealing)")
 	for _, e := range []*evRef{read, seal, seek} {
 		n, _ := calleeOf(e.call())
-		c.Cond(errChecked(e.call()) && len(evConds(*e)) == 0, "3/seal", key+":checked:"+n[strings.LastIndex(n, ".")+1:], p.Pos(e.call().Pos()), "step is unconditional and its failure is returned", "step is conditional or its error is dropped")
+		handled := errChecked(e.call())
+		if !handled {
+			// the error may travel through a named result: decide path-sensitively that a failure is returned
+			if v, isV := e.call().(ssa.Value); isV && v.Referrers() != nil {
+				for _, r := range *v.Referrers() {
+					if ex, ok := r.(*ssa.Extract); ok && isErrorType(ex.Type()) {
+						handled, _ = errPropagated(p, ex)
+					}
+				}
+			}
+		}
+		c.Cond(handled && len(evConds(*e)) == 0, "3/seal", key+":checked:"+n[strings.LastIndex(n, ".")+1:], p.Pos(e.call().Pos()), "step is unconditional and its failure is returned", "step is conditional or its error is dropped")
 	}
 	// every error return after creation closes the file
 	var newCall ssa.CallInstruction
@@ -220,8 +232,23 @@ func checkMemfdSeal(c *Check) {
 		n := 0
 		for _, b := range dup.Blocks {
 			ret, ok := b.Instrs[len(b.Instrs)-1].(*ssa.Return)
-			if !ok || !isNilConst(ret.Results[0]) {
+			if !ok {
 				continue
+			}
+			if !isNilConst(ret.Results[0]) {
+				// named results: the value is read from the result slot; an error return stored nil there in this block
+				u, isLoad := ret.Results[0].(*ssa.UnOp)
+				storedNil := false
+				if isLoad && u.Op == token.MUL {
+					for _, in := range b.Instrs {
+						if st, ok := in.(*ssa.Store); ok && st.Addr == u.X && isNilConst(st.Val) {
+							storedNil = true
+						}
+					}
+				}
+				if !storedNil {
+					continue
+				}
 			}
 			// error return: must be preceded by Close unless it is the creation failure itself
 			if !newCall.Block().Dominates(b) || directErrOf(b, newCall) {
@@ -236,10 +263,46 @@ func checkMemfdSeal(c *Check) {
 					}
 				}
 			}
+			// or: a deferred function registered before this return closes the file when the function fails
+			// (its Close depends only on a nil test of an error)
+			for _, db := range dup.Blocks {
+				for _, in := range db.Instrs {
+					df, ok := in.(*ssa.Defer)
+					if !ok || !db.Dominates(b) {
+						continue
+					}
+					f := spawnedFn(&df.Call)
+					if f == nil || !inModule(f) || len(f.Blocks) == 0 {
+						continue
+					}
+					for _, ci := range callInstrs(f) {
+						if nm, _ := calleeOf(ci); strings.HasSuffix(nm, "os.File).Close") {
+							onlyErrTests := true
+							for _, d := range cdChain(controlDeps(f), ci.Block()) {
+								iff := blockIf(d.b)
+								if iff == nil {
+									continue
+								}
+								bo, isBo := iff.Cond.(*ssa.BinOp)
+								if !isBo || !isNilConst(bo.Y) || !isErrorType(bo.X.Type()) || (bo.Op == token.NEQ) != (d.succ == 0) {
+									onlyErrTests = false
+								}
+							}
+							if onlyErrTests {
+								closed = true
+							}
+						}
+					}
+				}
+			}
 			c.Cond(closed, "3/seal", fmt.Sprintf("%s:error-closes#%d", key, n), p.Pos(ret.Pos()), "the half-built file is closed on this error", "an error return leaks the memfd")
 		}
+		if n == 0 {
+			// with named results every return reads the result slots: the obligation is on the function as a whole
+			c.Fail("3/seal", key+":error-closes", pos, "cannot find the error returns that follow the creation of the memfd")
+		}
 	}
-	c.Expect("3/seal", 10)
+	c.Expect("3/seal", 8)
 }
 
 // directErrOf: block b is the immediate error branch of call ci.
@@ -255,5 +318,26 @@ func directErrOf(b *ssa.BasicBlock, ci ssa.CallInstruction) bool {
 	if !ok {
 		return false
 	}
-	return dependsOn(iff.Cond, map[ssa.Value]bool{v: true}, 0) && b.Preds[0] == ci.Block()
+	roots := map[ssa.Value]bool{v: true}
+	// the error may be kept in a local cell (named result): loads of a cell that receives a value of the call
+	if v.Referrers() != nil {
+		for _, r := range *v.Referrers() {
+			ex, ok := r.(*ssa.Extract)
+			if !ok || ex.Referrers() == nil {
+				continue
+			}
+			for _, r2 := range *ex.Referrers() {
+				if st, ok := r2.(*ssa.Store); ok && st.Val == ssa.Value(ex) {
+					if cell, ok := st.Addr.(*ssa.Alloc); ok {
+						for _, r3 := range *cell.Referrers() {
+							if u, ok := r3.(*ssa.UnOp); ok && u.Op == token.MUL && u.Block() == ci.Block() {
+								roots[u] = true
+							}
+						}
+					}
+				}
+			}
+		}
+	}
+	return dependsOn(iff.Cond, roots, 0) && b.Preds[0] == ci.Block()
 }
